@@ -157,7 +157,8 @@ fn case<const N: usize>(rng: &mut Rng, rep: &mut Report, cfg: &GenCfg, hostile: 
     let Ok(text_s) = std::str::from_utf8(text) else { rep.violation("C03 write: output is not UTF-8", json!({"input": input()})); return; };
     if rep.want_sample() && nontrivial(&m) { rep.sample(|| json!({"workload": if hostile { "hostile" } else { "main" }, "written_tiny": text_s})); }
     let has_tab = { let mut t = false; m.visit(|_, _, c| if c.as_deref().is_some_and(|c| c.contains('\t')) { t = true }); t };
-    let r = match guard(|| tiny_v2::read::<N, ()>(&text[..])) {
+    // every third text is delivered through a reader that returns short reads (legal for any `Read`)
+    let r = match guard(|| if common::rng::fnv(text) % 3 == 0 { tiny_v2::read::<N, ()>(common::io::ChunkedReader::new(&text[..], common::rng::fnv(text), 1 + text.len() % 11)) } else { tiny_v2::read::<N, ()>(&text[..]) }) {
         Err(p) => { rep.violation(format!("C03 panic {}", p.site()), json!({"call": "read", "panic": p.message, "text": text_s, "input": input()})); return; }
         Ok(Err(e)) => {
             let why = if has_tab { " (a comment contains TAB)" } else { "" };
